@@ -72,7 +72,8 @@ func (vc *VC) execCallCommon(st *State, call *ssa.CallCommon, instr ssa.Instruct
 		recv := vc.val(st, call.Value)
 		ci.key = ifaceMethodKey(call.Method)
 		ci.contract = vc.lookupContract(ci.key)
-		if ci.contract != nil || !vc.isEffectFree(ci.key) {
+		// receivers of effect-free interface methods (loggers, A-LOG) are not checked for nil, with or without a contract
+		if !vc.isEffectFree(ci.key) {
 			vc.safety(st, not(eq(recv.T, "iface_nil")), "nil-interface-call@"+call.Method.Name(), instr)
 		}
 		rt := vc.tvOf(recv, call.Value.Type())
